@@ -35,6 +35,8 @@ type apiObs struct {
 	IDs    int    `json:"ids"`
 	Panic  string `json:"panic,omitempty"`
 	HTML   string `json:"html,omitempty"`
+	// reports delivered to a reporter the CALLER supplied as an option (ops r w f n), "tag/attr/line;…"
+	Reports string `json:"reports,omitempty"`
 }
 
 func digest(s string) string {
@@ -69,7 +71,36 @@ func apiChild() {
 			k, _ := strconv.Atoi(op[1:])
 			var html string
 			var err error
+			var reports []string
+			callerReporter := func(o *mjml.RenderOpts) {
+				o.InvalidAttributeReporter = func(tag, attr string, line int) { reports = append(reports, fmt.Sprintf("%s/%s/%d", tag, attr, line)) }
+			}
+			defer func() { o.Reports = strings.Join(reports, ";") }()
 			switch op[0] {
+			case 'r':
+				html, err = mjml.Render(job.Docs[k], callerReporter)
+			case 'w':
+				var rr *mjml.RenderResult
+				rr, err = mjml.RenderWithAST(job.Docs[k], callerReporter)
+				if rr != nil {
+					html = rr.HTML
+				}
+			case 'f':
+				var ast *parser.MJMLNode
+				ast, err = mjml.ParseMJML(job.Docs[k])
+				if err == nil {
+					html, err = mjml.RenderFromAST(ast, callerReporter)
+				}
+			case 'n':
+				var ast *parser.MJMLNode
+				ast, err = mjml.ParseMJML(job.Docs[k])
+				if err == nil {
+					var c mjml.Component
+					c, err = mjml.NewFromAST(ast, callerReporter)
+					if err == nil {
+						trees = append(trees, c)
+					}
+				}
 			case 'R':
 				html, err = mjml.Render(job.Docs[k])
 			case 'C':
@@ -507,8 +538,52 @@ var failingDocs = []string{
 	`<mjml><mj-body><mj-section><mj-column><mj-text bogus="1" font-family="Merriweather">v</mj-text></mj-column></mj-section></mj-body></mjml>`,
 }
 
+// zooDoc: the legal context of every body component, all of them in one body, with every attribute of every element's table
+// set to its first (which = 0) or second (which = 1) typed test value; parts that do not compile alone are left out
+func zooDoc(which int) string {
+	var parts []string
+	for _, tag := range bodyTags {
+		if tag == "mj-body" || tag == "mj-raw" {
+			continue
+		}
+		d := parseNodeTree(legalContext(tag, "", ""))
+		if d == nil || d.child("mj-body") == nil {
+			continue
+		}
+		d.child("mj-body").Walk(func(x *Node) {
+			if !strings.HasPrefix(x.Tag, "mj-") || x.Tag == "mj-body" {
+				return
+			}
+			for _, a := range allowedSorted(x.Tag) {
+				attr, ty := a[0], a[1]
+				if attr == "css-class" || attr == "mj-class" || attr == "full-width" || attr == "src" || attr == "href" || attr == "name" ||
+					attr == "width" || attr == "height" || attr == "mode" || strings.Contains(attr, "url") {
+					continue
+				}
+				v1, v2 := testValues(attr, ty)
+				if v1 == "" {
+					continue
+				}
+				if which == 1 {
+					v1 = v2
+				}
+				x.Set(attr, v1)
+			}
+		})
+		if _, err := mjml.Render(d.MJML()); err != nil {
+			continue
+		}
+		var sb strings.Builder
+		for _, k := range d.child("mj-body").Kids {
+			sb.WriteString(k.MJML())
+		}
+		parts = append(parts, sb.String())
+	}
+	return "<mjml><mj-body>" + strings.Join(parts, "") + "</mj-body></mjml>"
+}
+
 func runC07(res *Result, tier string, seed int64, replay string) {
-	res.Rule = "for each class of head difference (mj-attributes, mj-class, mj-font, inline mj-style, mj-style, title/preview, breakpoint, body-only, validation errors, body width, group/column widths) two documents that differ only in that class are compiled concurrently by N ∈ {2,4,8,16} goroutines (with and without WithCache, Gosched perturbation; every other round right after compilations that failed while rendering, parsing or validating), every result compared with the solo result; seeded random document sets beyond the classes; built with -race and the race reports parsed. Non-trivial = round with ≥2 different documents in flight; distinct by (class, N, cache, round)"
+	res.Rule = "for each class of head difference (mj-attributes, mj-class, mj-font, inline mj-style, mj-style, title/preview, breakpoint, body-only, validation errors, body width, group/column widths) two documents that differ only in that class are compiled concurrently by N ∈ {2,4,8,16} goroutines (with and without WithCache, Gosched perturbation; every other round right after compilations that failed while rendering, parsing or validating), every result compared with the solo result; a document pair holding every component and sub-element with every attribute of its table set (one value in one document, another in the other); seeded random document sets beyond the classes; built with -race and the race reports parsed. Non-trivial = round with ≥2 different documents in flight; distinct by (class, N, cache, round)"
 	rounds := 8
 	if tier == "thorough" {
 		rounds = 200
@@ -549,6 +624,13 @@ func runC07(res *Result, tier string, seed int64, replay string) {
 		a := strip(genRich(r, &RichOpts{Head: true, MaxAttrs: 3, Features: true, CSSInline: true}))
 		b := strip(genRich(r, &RichOpts{Head: true, MaxAttrs: 3, Features: true, CSSInline: true}))
 		classes = append(classes, isoClass{fmt.Sprintf("random-%d", i), a, b})
+	}
+	// every component and sub-element in one document, every attribute of its table set — to one value in document a, to
+	// another in document b: anything a component keeps outside the compilation (a prebuilt tag, a buffer, a memo) and
+	// completes per element shows as the other document's value or as a race
+	{
+		za, zb := zooDoc(0), zooDoc(1)
+		classes = append(classes, isoClass{"component-zoo", za, zb})
 	}
 	if replay != "" {
 		in := replayRaw(replay)
@@ -753,7 +835,7 @@ func eqOps(h []string) []string {
 }
 
 func runC08(res *Result, tier string, seed int64, replay string) {
-	res.Rule = "histories of calls to Render / RenderWithAST / RenderFromAST / NewFromAST / RenderComponentString (plus Render with cache and with debug; plus trees the caller parsed once or got back from RenderWithAST and keeps: rendered and built from any number of times, each time required to behave like a fresh parse) over five documents with conflicting heads (two with different mj-all / tag / mj-class defaults, one without head and with a group, one unparsable, one with a validation error); every history runs in a fresh process; each result is compared with the same call made FIRST in a fresh process, and with the Lean API model (driver `api`), which says which results must be the fresh ones and which trees are rendered with another document's store. Also: Render = class-order rewrite of RenderFromAST. Non-trivial = history with ≥2 calls on different documents; distinct by op list"
+	res.Rule = "histories of calls to Render / RenderWithAST / RenderFromAST / NewFromAST / RenderComponentString (plus Render with cache and with debug; plus trees the caller parsed once or got back from RenderWithAST and keeps: rendered and built from any number of times, each time required to behave like a fresh parse) over five documents with conflicting heads (two with different mj-all / tag / mj-class defaults, one without head and with a group, one unparsable, one with a validation error); every history runs in a fresh process; each result is compared with the same call made FIRST in a fresh process, and with the Lean API model (driver `api`), which says which results must be the fresh ones and which trees are rendered with another document's store. Also: Render = class-order rewrite of RenderFromAST; the paths agree (HTML, returned error, what the reporter hears) when the caller passes an option of its own, a validation reporter. Non-trivial = history with ≥2 calls on different documents; distinct by op list"
 	drv, err := startDriverPool(4)
 	if err != nil {
 		res.Disagree(Violation{Sig: "driver-missing", What: err.Error()})
@@ -798,6 +880,49 @@ func runC08(res *Result, tier string, seed int64, replay string) {
 		}
 		if f.HTML != "" && alphaIDs(t.HTML) != alphaIDs(f.HTML) {
 			res.Violate(Violation{Sig: fmt.Sprintf("paths-disagree|step-by-step-vs-RenderFromAST|doc%d", d), Kind: "history", What: "NewFromAST+RenderComponentString and RenderFromAST differ", Input: map[string]interface{}{"source": apiDocs[d]}})
+		}
+	}
+	// the same with an option of the caller's own (a validation reporter): the paths must still agree on HTML and error, and
+	// the caller's reporter must be told the same on every path
+	if replay == "" {
+		var ops []string
+		for _, k := range "rwf" {
+			for d := range apiDocs {
+				ops = append(ops, fmt.Sprintf("%c%d", k, d))
+			}
+		}
+		with := map[string]apiObs{}
+		parallel(16, len(ops), func(i int) {
+			obs, crash := runAPIChild(apiJob{Docs: apiDocs, Ops: []string{ops[i]}, Full: true})
+			fmu.Lock()
+			defer fmu.Unlock()
+			if crash == "" && len(obs) == 1 {
+				with[ops[i]] = obs[0]
+			}
+		})
+		for d := range apiDocs {
+			r, w, f := with[fmt.Sprintf("r%d", d)], with[fmt.Sprintf("w%d", d)], with[fmt.Sprintf("f%d", d)]
+			var nt apiObs
+			if obs, _ := runAPIChild(apiJob{Docs: apiDocs, Ops: []string{fmt.Sprintf("n%d", d), "T0"}, Full: true}); len(obs) == 2 {
+				nt = obs[1]
+				nt.Reports = obs[0].Reports
+			}
+			res.Case(fmt.Sprintf("caller-reporter|doc%d", d), r.Reports != "")
+			res.Count("paths-with-caller-option")
+			bad := ""
+			switch {
+			case r.Err != f.Err || w.Err != f.Err:
+				bad = fmt.Sprintf("returned errors differ: Render %q, RenderWithAST %q, RenderFromAST %q", r.Err, w.Err, f.Err)
+			case alphaIDs(mjml.VerifNormalizeGroupColumnClassOrder(f.HTML)) != alphaIDs(r.HTML) || alphaIDs(w.HTML) != alphaIDs(f.HTML):
+				bad = "returned HTML differs between the paths"
+			case r.Reports != f.Reports || w.Reports != f.Reports:
+				bad = fmt.Sprintf("the caller's reporter is told different things: Render %q, RenderWithAST %q, RenderFromAST %q", r.Reports, w.Reports, f.Reports)
+			case f.HTML != "" && (alphaIDs(nt.HTML) != alphaIDs(f.HTML) || nt.Reports != f.Reports):
+				bad = fmt.Sprintf("NewFromAST+RenderComponentString differs from RenderFromAST (reports %q vs %q)", nt.Reports, f.Reports)
+			}
+			if bad != "" {
+				res.Violate(Violation{Sig: fmt.Sprintf("paths-disagree|with-caller-reporter|doc%d", d), Kind: "history", What: "with a validation reporter supplied by the caller as an option: " + bad, Input: map[string]interface{}{"source": apiDocs[d]}})
+			}
 		}
 	}
 	// histories
